@@ -59,7 +59,8 @@ def run(chk: Check):
     # the same rule at the level of the kernels' transition infos: RW / MH / IWLS kernels whose block's density depends
     # on a quantity another kernel of the sequence moves in between (the log-densities are those of the *current* state)
     from harness import parallel, proposals_driver as P
-    js = [j for j in P.jobs(True) if j["family"] in ("coupled", "gamma_coupled", "gamma_cached")]
+    js = [j for j in P.jobs(True) if j["family"] in ("coupled", "gamma_coupled", "gamma_cached", "poisson_userchol",
+                                                       "gauss2_userchol")]
     ktr = [t for res in parallel.run_jobs("harness.proposals_driver", "run", js) for t in res]
     chk.tv("Trace_Proposals.tla", ktr, tag="kernel_infos", timeout=900,
            keyfn=lambda r: f"kernel:{r.trace['hdr']['kernel']}:{r.conjunct}",
@@ -78,8 +79,8 @@ def run(chk: Check):
 def replay(chk: Check, data):
     """Re-run the recorded key through the real mh_step and re-validate."""
     hdr = data["replay"]["trace"]["hdr"]
-    if hdr.get("family") in ("dict", "dataclass", "liesel") and "mode" not in hdr:
-        from harness import mhiface_driver as MI
+    from harness import mhiface_driver as MI
+    if hdr.get("family") in MI.FAMILIES and "mode" not in hdr:
         chk.tv("Trace_MHIface.tla", [MI.trace(hdr["seed"], hdr["family"])], tag="interfaces",
                keyfn=lambda r: f"iface:{r.trace['hdr']['family']}:{r.conjunct}")
         return
